@@ -298,9 +298,15 @@ func (g *pGen) stmt(depth int) []pUnit {
 		out := []pUnit{tag("<%=", false, "cap", "(", ")", "{")}
 		out = append(out, g.stmts(depth-1, g.r.Range(1, 2))...)
 		return append(out, tag("<%", false, "}"))
-	case k == 13 && !g.noFail && g.r.Chance(1, 8):
+	case k == 13 && !g.noFail && g.r.Chance(1, 3):
 		g.features["failing-statement"] = true
 		return []pUnit{tag("<%=", true, pick(g.r, []string{"nosuchvar", "1 / 0", "xs[9]", "tt.Nope"}))}
+	case k == 13 && !g.noAssign:
+		// an empty hash literal that is then written to
+		g.features["empty-hash-then-write"] = true
+		v := g.fresh("eh")
+		return []pUnit{tag("<%", true, "let", v, "=", "{", "}"), tag("<%=", true, "len", "(", v, ")"),
+			tag("<%", true, append([]string{v, "[", `"k"`, "]", "="}, g.intExpr(1)...)...), tag("<%=", true, v, "[", `"k"`, "]")}
 	case k == 15 && g.partials:
 		g.features["partial"] = true
 		return []pUnit{tag("<%=", true, "partial", "(", pick(g.r, []string{`"pp"`, `"pq"`}), ",", "{", "iv", ":", fmt.Sprint(g.r.Intn(9)), "}", ")")}
